@@ -454,6 +454,8 @@ def _strict_received(fi, call, callee):
 
 
 def check(prog, rep):
+    from . import pitfalls as _pit
+    rep.section(_pit.report, prog, rep, 'R18.P', ['src/optyx/solvers/lp_solver.py', 'src/optyx/solvers/scipy_solver.py', 'src/optyx/core/expressions.py', 'src/optyx/problem.py'], ('P4',))
     _STR_CONSTS.clear()
     ANY_BLOCK_TESTS.clear()
     for m in prog.modules.values():
